@@ -456,6 +456,13 @@ impl<'p> CoroutinePool<'p> {
                         std::cmp::Ordering::Equal | std::cmp::Ordering::Greater => {
                             pool.blocker.clone().block(Duration::from_millis(1));
                             pool.reset_pop_fail_times();
+                            // give the thread back as well: the last idle worker
+                            // (the only one of a pool at its minimum size, or a
+                            // worker that another pool's thread has stolen) would
+                            // otherwise never leave this loop, and the scheduling
+                            // pass - with it the event loop's timers and readiness
+                            // events - would never continue
+                            suspender.suspend();
                         }
                     }
                 }
